@@ -61,7 +61,7 @@ Qed.
 Theorem lru_size_bounded call c : 1 <= cap c -> length (items c) <= cap c ->
   cap (fst (lru_exec call c)) = cap c /\ length (items (fst (lru_exec call c))) <= cap c.
 Proof.
-  intros Hc Hl. destruct call as [k|k v|k|k| | |k]; cbn.
+  intros Hc Hl. destruct call as [k|k v|k|k| | |k|k v]; cbn.
   - unfold lru_get. destruct (alookup k (items c)) eqn:E; cbn; [|auto]. split; auto.
     rewrite app_length. cbn. pose proof (length_aremove_lt _ _ _ E). lia.
   - split; auto. set (it := aremove k (items c) ++ [(k, v)]).
@@ -76,6 +76,51 @@ Proof.
   - auto.
   - split; auto. lia.
   - auto.
+  - split; auto. unfold lru_set_nomark. cbn [items cap].
+    set (it := match alookup k (items c) with
+               | Some _ => map (fun p => if Nat.eqb (fst p) k then (k, v) else p) (items c)
+               | None => items c ++ [(k, v)] end).
+    assert (Hlen : length it <= S (cap c)).
+    { unfold it. destruct (alookup k (items c)); [rewrite map_length; lia | rewrite app_length; cbn; lia]. }
+    clearbody it. destruct it as [|p it']; cbn in *; [lia|].
+    destruct (Nat.leb (cap c) (length it')) eqn:E; cbn.
+    + apply Nat.leb_le in E. lia.
+    + apply Nat.leb_gt in E. lia.
+Qed.
+
+(* storing a new value for a key that is already cached evicts nothing and touches no other key *)
+Lemma alookup_aremove_other k k' l : k' <> k -> alookup k' (aremove k l) = alookup k' l.
+Proof.
+  intros Hne. induction l as [|[a b] r IH]; cbn; auto.
+  destruct (Nat.eqb k a) eqn:E1.
+  - apply Nat.eqb_eq in E1. subst a. destruct (Nat.eqb k' k) eqn:E2; [apply Nat.eqb_eq in E2; congruence|exact IH].
+  - cbn. destruct (Nat.eqb k' a); auto.
+Qed.
+
+Lemma alookup_map_update k k' v l : k' <> k ->
+  alookup k' (map (fun p => if Nat.eqb (fst p) k then (k, v) else p) l) = alookup k' l.
+Proof.
+  intros Hne. induction l as [|[a b] r IH]; cbn; auto.
+  destruct (Nat.eqb a k) eqn:E1; cbn.
+  - apply Nat.eqb_eq in E1. subst a. destruct (Nat.eqb k' k) eqn:E2; [apply Nat.eqb_eq in E2; congruence|exact IH].
+  - destruct (Nat.eqb k' a); auto.
+Qed.
+
+Theorem lru_update_keeps_others c k v x : length (items c) <= cap c -> alookup k (items c) = Some x ->
+  forall k', k' <> k ->
+    alookup k' (items (lru_set c k v)) = alookup k' (items c) /\
+    alookup k' (items (lru_set_nomark c k v)) = alookup k' (items c).
+Proof.
+  intros Hl Hk k' Hne. split.
+  - unfold lru_set. cbn [items cap].
+    assert (Hlen : Nat.ltb (cap c) (length (aremove k (items c) ++ [(k, v)])) = false).
+    { apply Nat.ltb_ge. rewrite app_length. cbn. pose proof (length_aremove_lt _ _ _ Hk). lia. }
+    rewrite Hlen, alookup_app, alookup_aremove_other by exact Hne.
+    destruct (alookup k' (items c)); auto. cbn. destruct (Nat.eqb k' k) eqn:E; [apply Nat.eqb_eq in E; congruence|reflexivity].
+  - unfold lru_set_nomark. cbn [items cap]. rewrite Hk.
+    assert (Hlen : Nat.ltb (cap c) (length (map (fun p => if Nat.eqb (fst p) k then (k, v) else p) (items c))) = false).
+    { apply Nat.ltb_ge. rewrite map_length. exact Hl. }
+    rewrite Hlen. apply alookup_map_update. exact Hne.
 Qed.
 
 (* ---------- TextFileSource: one call, file possibly edited between stat and read ---------- *)
@@ -87,44 +132,65 @@ Section TextSpec.
   Definition text_spec (c : tcall) (w : nat) : R :=
     at_world c w (if bad w then [8] else text_answer c (contents w)).
 
-  (* the object holds the parse of some (parsable) file state between the recorded stat version and now *)
+  (* the object holds the parse of some (parsable) file state between the recorded stat version and now
+     (version S v = the stat version of file state v; version 0 = "stat failed" says nothing) *)
   Definition t_inv (o : tobj) (w : nat) : Prop :=
-    forall v, fver o = Some v -> exists wc, v <= wc /\ wc <= w /\ parsed o = contents wc /\ bad wc = false.
+    forall v, fver o = Some (S v) -> exists wc, v <= wc /\ wc <= w /\ parsed o = contents wc /\ bad wc = false.
+
+  Lemma fresh_read sv c l w1 w2 l2 o2 : tc l = c -> w1 <= w2 ->
+    (if bad w2 then
+       ({| tc := tc l; statv := sv; tres := at_world (tc l) w2 [8] |}, {| fver := None; parsed := [] |})
+     else ({| tc := tc l; statv := sv;
+              tres := at_world (tc l) w2 (text_answer (tc l) (parsed {| fver := sv; parsed := contents w2 |})) |},
+           {| fver := sv; parsed := contents w2 |})) = (l2, o2) ->
+    (sv = None \/ sv = Some 0 \/ sv = Some (S w1)) ->
+    (exists wr, w1 <= wr /\ wr <= w2 /\
+       tres l2 = at_world c w2 (if bad wr then [8] else text_answer c (contents wr))) /\ t_inv o2 w2.
+  Proof.
+    intros Hc Hw H Hsv. destruct (bad w2) eqn:Eb; injection H as <- <-; cbn [tres parsed fver]; split.
+    - exists w2. rewrite Eb, Hc. repeat split; auto.
+    - intros v Hv. discriminate.
+    - exists w2. rewrite Eb, Hc. repeat split; auto.
+    - intros v Hv. cbn [fver] in Hv. destruct Hsv as [ -> | [ -> | -> ]]; try discriminate. injection Hv as <-.
+      exists w2. cbn [parsed]. repeat split; auto.
+  Qed.
 
   (* a call whose stat sees state w1 and whose read sees state w2 (the file may have been edited in
      between) answers exactly as for ONE file state wr with w1 <= wr <= w2, observed at w2 *)
   Theorem text_call_spec ce c l o w1 w2 l1 o1 l2 o2 :
-    t_inv o w1 -> w1 <= w2 -> tc l = c ->
+    t_inv o w1 -> w1 <= w2 -> tc l = c -> stat_faulted c = false ->
     t_stat ce l o w1 = (l1, o1) -> t_read contents bad ce l1 o1 w2 = (l2, o2) ->
     (exists wr, w1 <= wr /\ wr <= w2 /\
                 tres l2 = at_world c w2 (if bad wr then [8] else text_answer c (contents wr))) /\ t_inv o2 w2.
   Proof.
-    intros Hi Hw Hc Hs Hr. unfold t_stat in Hs. injection Hs as <- <-.
+    intros Hi Hw Hc Hnf Hs Hr. unfold t_stat in Hs. rewrite <- Hc in Hnf. rewrite Hnf in Hs. injection Hs as <- <-.
     unfold t_read in Hr. cbn [statv tc] in Hr.
-    assert (Hfresh : forall sv, (if bad w2 then
-                 ({| tc := tc l; statv := sv; tres := at_world (tc l) w2 [8] |}, {| fver := None; parsed := [] |})
-               else ({| tc := tc l; statv := sv;
-                        tres := at_world (tc l) w2 (text_answer (tc l) (parsed {| fver := sv; parsed := contents w2 |})) |},
-                     {| fver := sv; parsed := contents w2 |})) = (l2, o2) ->
-               (sv = None \/ sv = Some w1) ->
-               (exists wr, w1 <= wr /\ wr <= w2 /\
-                  tres l2 = at_world c w2 (if bad wr then [8] else text_answer c (contents wr))) /\ t_inv o2 w2).
-    { intros sv H Hsv. destruct (bad w2) eqn:Eb; injection H as <- <-; cbn [tres parsed fver]; split.
-      - exists w2. rewrite Eb, Hc. repeat split; auto.
-      - intros v Hv. discriminate.
-      - exists w2. rewrite Eb, Hc. repeat split; auto.
-      - intros v Hv. cbn [fver] in Hv. destruct Hsv as [ -> | -> ]; [discriminate|]. injection Hv as <-.
-        exists w2. cbn [parsed]. repeat split; auto. }
     destruct ce; cbn [andb] in Hr.
-    - destruct (opt_nat_eqb (Some w1) (fver o)) eqn:E.
+    - destruct (opt_nat_eqb (Some (S w1)) (fver o)) eqn:E.
       + injection Hr as <- <-. cbn [tres]. unfold opt_nat_eqb in E.
         destruct (fver o) as [v|] eqn:Ev; [|discriminate]. apply Nat.eqb_eq in E. subst v.
         destruct (Hi _ Ev) as (wc & H1 & H2 & H3 & H4). assert (wc = w1) by lia. subst wc.
         split.
         * exists w1. rewrite Hc, H3, H4. repeat split; auto.
         * intros v Hv. rewrite Ev in Hv. injection Hv as <-. exists w1. repeat split; auto.
-      + apply (Hfresh (Some w1)); auto.
-    - apply (Hfresh None); auto.
+      + eapply fresh_read; eauto.
+    - eapply fresh_read; eauto.
+  Qed.
+
+  (* a call whose stat FAILS transiently (the file is readable) simply re-reads the file -- unless the
+     previous reload was itself triggered by such a failure: every failure yields the same version string *)
+  Theorem text_call_stat_fault c l o w1 w2 l1 o1 l2 o2 :
+    w1 <= w2 -> tc l = c -> stat_faulted c = true -> fver o <> Some 0 ->
+    t_stat true l o w1 = (l1, o1) -> t_read contents bad true l1 o1 w2 = (l2, o2) ->
+    tres l2 = at_world c w2 (if bad w2 then [8] else text_answer c (contents w2)) /\ t_inv o2 w2.
+  Proof.
+    intros Hw Hc Hf Hne Hs Hr. unfold t_stat in Hs. rewrite <- Hc in Hf. rewrite Hf in Hs. injection Hs as <- <-.
+    unfold t_read in Hr. cbn [statv tc andb] in Hr.
+    assert (E : opt_nat_eqb (Some 0) (fver o) = false).
+    { unfold opt_nat_eqb. destruct (fver o) as [[|v]|]; auto. congruence. }
+    rewrite E in Hr.
+    destruct (fresh_read (Some 0) c l w2 w2 l2 o2 Hc (le_n _) Hr (or_intror (or_introl eq_refl))) as ((wr & H1 & H2 & H3) & Hi).
+    assert (wr = w2) by lia. subst wr. split; assumption.
   Qed.
 
   Lemma t_inv_mono o w w' : t_inv o w -> w <= w' -> t_inv o w'.
